@@ -422,9 +422,18 @@ func init() {
 		ID: "C04",
 		Runs: func(tier string) []HarnessRun {
 			os := repoMod + "/internal/outputstream"
-			return []HarnessRun{{Name: "resume", Pkg: "internal/api", PkgName: "api", Files: []string{"apipkg/common.go", "apipkg/c11.go", "apipkg/post.go", "apipkg/c04.go"}, APIs: []string{"http"},
-				Entry: "verifHarness_C04_resume", Params: map[string]int{"batches": p4(tier, 3, 4), "replies": p4(tier, 2, 3)}, Unwind: 12, NoReplay: true,
-				Redirect: map[string]string{"(*" + os + ".OutputStream).Get": "verifStub_osGet", "(*" + os + ".OutputStream).GetNext": "verifStub_osGetNext", "time.Sleep": "verifStub_sleepLag"}}}
+			osRedir := map[string]string{"(*" + os + ".OutputStream).Get": "verifStub_osGet", "(*" + os + ".OutputStream).GetNext": "verifStub_osGetNext", "time.Sleep": "verifStub_sleepLag"}
+			hRedir := map[string]string{"(*" + os + ".OutputStream).InterruptGetNext": "verifStub_osInterrupt", "(*" + repoMod + "/internal/api.HTTP).partitioned": "verifStub_notPartitioned"}
+			for k, v := range osRedir {
+				hRedir[k] = v
+			}
+			params := map[string]int{"batches": p4(tier, 3, 4), "replies": p4(tier, 2, 3), "authlen": 3}
+			return []HarnessRun{
+				{Name: "resume", Pkg: "internal/api", PkgName: "api", Files: []string{"apipkg/common.go", "apipkg/c04common.go", "apipkg/c04.go"}, APIs: []string{"http"},
+					Entry: "verifHarness_C04_resume", Params: params, Unwind: 12, NoReplay: true, Redirect: osRedir},
+				{Name: "handler", Pkg: "internal/api", PkgName: "api", Files: []string{"apipkg/common.go", "apipkg/c04common.go", "apipkg/c04h.go"}, APIs: []string{"http"},
+					Entry: "verifHarness_C04_handler", Params: mergeParams(params, "batches", p4(tier, 2, 3)), Unwind: 14, NoReplay: true, Redirect: hRedir},
+			}
 		},
 		Assumptions: []string{
 			"OutputStream.Get/GetNext are replaced by their specification (assume-guarantee with C08): Get finds an applied batch by id; GetNext returns the applied batch with the smallest larger id, else blocks until the node applies another batch and returns that one, else (nothing more in the scenario) the context is cancelled",
